@@ -97,6 +97,64 @@ def run(tier, replay=None):
         c, k, a = jobs[j]
         res.violation("C03 %s %s: %s" % (k, a, why), {"kind": k, "n": c[0], "edges": c[1], "scale": c[2], "args": a, "why": why, "count": len(bad) + len(viols)})
     elif diffs or (lean_ok and len(oks) != len(jobs)):
+        # focused search: the disagreeing graphs under other labellings / edge orders / weights / schedules
+        ids = []
+        for d in diffs:
+            if len(d) > 1 and d[1] in jobs and d[1] not in ids: ids.append(d[1])
+        tried = 0
+        for jid in ids[:20]:
+            c, k, a = jobs[jid]
+            n, WE = c[0], c[1]
+            fj = {}
+            for t in range(100):
+                perm = list(range(n)); r.shuffle(perm)
+                E2 = [(perm[x], perm[y], w) if r.random() < .5 else (perm[y], perm[x], w) for (x, y, w) in WE]; r.shuffle(E2)
+                if t % 3 == 1: E2 = [(x, y, max(1, w + r.randint(-2, 2))) for (x, y, w) in E2]
+                if t % 3 == 2: E2 = [(x, y, r.randint(1, 30)) for (x, y, w) in E2]
+                a2 = list(a)
+                if k == "exact": a2[1] = r.getrandbits(40); a2[2] = r.choice([0, 0, 1, 2])
+                else: a2[2] = r.getrandbits(40)
+                fj["f%d" % t] = ((n, E2, c[2], "focused"), k, a2)
+            rcf, outf, errf = run_harness(bshim, "".join(render_graph(j, kk, "d", cc[2], aa, cc[0], cc[1]) for j, (cc, kk, aa) in fj.items()))
+            bf = parse_blocks(outf)
+            for j, (cc, kk, aa) in fj.items():
+                tried += 1
+                b = bf.get(j, {"lines": []})
+                mu = mcb_weight_oracle(cc[0], cc[1])
+                why = (oracle_c01(cc, b) or oracle_c02(cc, b, mu)) if kk == "exact" else (oracle_c05(cc, aa[1], b) or oracle_c06(cc, aa[1], b, mu))
+                if why:
+                    res.coverage["focused_search_runs"] = tried
+                    res.violation("C03 %s %s: %s (found by the focused search after the correspondence broke: %s)" % (kk, aa, why, " ".join(diffs[0][2:])[:200]),
+                                  {"kind": kk, "n": cc[0], "edges": cc[1], "scale": cc[2], "args": aa, "why": why})
+                    return res.finish()
+        # second stage: fresh mid-size random graphs with wide weights (unique optima), the disagreeing entry points,
+        # maximally split and random schedules
+        kinds = []
+        for jid in ids:
+            c, k, a = jobs[jid]
+            if (k, a[0]) not in kinds: kinds.append((k, a[0]))
+        for rnd in range(12 if kinds else 0):
+            fj = {}
+            for t in range(150):
+                n = r.randint(7, 14)
+                E = [(x, y) for x in range(n) for y in range(x + 1, n) if r.random() < r.choice([.25, .35, .5])]
+                WE = [(x, y, r.randint(1, 30)) for (x, y) in E]
+                k, v = kinds[t % len(kinds)]
+                aa = [v, r.getrandbits(40), r.choice([0, 2, 2])] if k == "exact" else [v, r.choice([2, 3]), r.getrandbits(40), 0]
+                fj["g%d" % t] = ((n, WE, 0, "focused-random"), k, aa)
+            rcf, outf, errf = run_harness(bshim, "".join(render_graph(j, kk, "d", cc[2], aa, cc[0], cc[1]) for j, (cc, kk, aa) in fj.items()))
+            bf = parse_blocks(outf)
+            for j, (cc, kk, aa) in fj.items():
+                tried += 1
+                b = bf.get(j, {"lines": []})
+                mu = mcb_weight_oracle(cc[0], cc[1])
+                why = (oracle_c01(cc, b) or oracle_c02(cc, b, mu)) if kk == "exact" else (oracle_c05(cc, aa[1], b) or oracle_c06(cc, aa[1], b, mu))
+                if why:
+                    res.coverage["focused_search_runs"] = tried
+                    res.violation("C03 %s %s: %s (found by the focused search after the correspondence broke: %s)" % (kk, aa, why, " ".join(diffs[0][2:])[:200]),
+                                  {"kind": kk, "n": cc[0], "edges": cc[1], "scale": cc[2], "args": aa, "why": why})
+                    return res.finish()
+        res.coverage["focused_search_runs"] = tried
         res.violation("trace validation under the stand-in scheduler broken (Model/Sched.lean, Model/DePina.lean vs the TBB variants); the S-level oracle still holds on all %d runs" % len(jobs),
                       {"kind": "correspondence", "first": diffs[:3], "validated": len(oks)}, found=False)
     return res.finish()
